@@ -237,14 +237,12 @@ Fixpoint g_typed_tail (reg : list wcfg) (c : wcfg) (t : itree) : bool :=
                         end) ks
   end.
 (* clause singletail: the tail of a single-wildcard holder is kept in the qname-less
-   wrapper and written inside the element unless the last child has a tail *)
-Definition last_tail_blank (ks : list itree) : bool :=
-  match rev ks with [] => false | k :: _ => negb (nonblank (i_tail k)) end.
+   wrapper and written before the holder's end event, i.e. inside the element *)
 Fixpoint g_single_tail (reg : list wcfg) (c : wcfg) (t : itree) : bool :=
   match t with
   | INode n a d x ks l =>
       forallb (fun k => match in_reg reg (i_name k) with
-                        | Some n' => negb (match c_kind n' with KSingle => nonblank (i_tail k) && last_tail_blank (i_kids k) | _ => false end)
+                        | Some n' => negb (match c_kind n' with KSingle => nonblank (i_tail k) | _ => false end)
                                      && g_single_tail reg n' k
                         | None => true
                         end) ks
